@@ -445,13 +445,52 @@ def rule_record_gates(ctx):
             dict(what="renegotiation_info of an initial ClientHello is empty",
                  dom={"renegoExt": [True], "renegoExt.renegotiated_connection": [b"", b"\x01"], "session": [True],
                       "clientHello.session_id": [b"s"], "sessionCache": [True], "version": [(3, 3)],
-                      "result == None": [False]},
+                      "result is None": [False]},
                  abort=lambda e: bool(e["renegoExt.renegotiated_connection"]),
                  msg="a ClientHello claiming to renegotiate (non-empty renegotiation_info) must be refused: "
                      "this implementation never renegotiates")])
 
 
+def rule_alert_for_message(ctx):
+    """ALERT-FOR-MSG: an alert record is accepted in the place of a handshake message only where the
+    protocol allows it: the SSLv3 no_certificate alert instead of the client's Certificate.  Every
+    `_getMsg` that lists ContentType.alert next to ContentType.handshake in the handshake functions is
+    guarded by conditions that hold for version (3, 0) only (evaluated for each version)."""
+    from ..condeval import ev, Unknown
+    from .c02 import _guards
+    R = "C06.ALERT-FOR-MSG"
+    n = 0
+    for fi in ctx.index.all_functions():
+        if fi.module.name != "tlsconnection":
+            continue
+        for st in own_nodes(fi.node):
+            if not (isinstance(st, ast.For) and isinstance(st.iter, ast.Call) and call_name(st.iter) == "_getMsg" and st.iter.args):
+                continue
+            first = st.iter.args[0]
+            chains = {attr_chain(x) for x in ast.walk(first) if isinstance(x, ast.Attribute)}
+            if not ({"ContentType.alert", "ContentType.handshake"} <= chains):
+                continue
+            n += 1
+            guards = _guards(fi.node, st) or []
+            allowed = []
+            for ver in ((3, 0), (3, 1), (3, 2), (3, 3), (3, 4)):
+                env = {"self.version": ver, "version": ver, "reqCert": True, "__index__": ctx.index}
+                try:
+                    ok = all(bool(ev(t_, dict(env))) == pol for t_, pol in guards)
+                except (Unknown, TypeError):
+                    ok = True           # a guard the row does not decide does not exclude the version
+                if ok:
+                    allowed.append(ver)
+            ctx.check(R, allowed == [(3, 0)], fi.qname, st.iter,
+                      "an alert is accepted in place of the expected handshake message for versions %s; only SSLv3 "
+                      "(3, 0) knows the no_certificate alert - later versions must treat it as unexpected" % allowed,
+                      fi.loc(st), what="%s: alert-for-message only in SSLv3" % fi.short)
+    if n < 1:
+        raise AnalysisError("%s: no _getMsg accepting an alert for a handshake message found (confirmed 1)" % R)
+
+
 RULES = [
+    ("C06.ALERT-FOR-MSG", "quick", rule_alert_for_message),
     ("C06.RECORD-GATES", "quick", rule_record_gates),
     ("C06.GETMSG", "quick", rule_getmsg),
     ("C06.ARGS", "quick", rule_args),
